@@ -270,6 +270,9 @@ func (it *Interp) runSched(toks []string) string {
 			return fmt.Sprintf("PANIC thread %d: %v", i, th.Panic)
 		}
 	}
+	if len(out) == 0 {
+		return "-"
+	}
 	return strings.Join(out, " ")
 }
 
@@ -281,7 +284,7 @@ func (it *Interp) Step(t []string, op string) string {
 		}
 		return ""
 	case "thread":
-		if it.br == nil || it.ran || len(t) < 3 || t[1] != strconv.Itoa(len(it.progs)) || len(it.progs) >= 8 {
+		if it.br == nil || len(t) < 3 || t[1] != strconv.Itoa(len(it.progs)) || len(it.progs) >= 8 {
 			return "bad-op"
 		}
 		var p []call
@@ -295,10 +298,12 @@ func (it *Interp) Step(t []string, op string) string {
 		it.progs = append(it.progs, p)
 		return ""
 	case "sched":
-		if it.br == nil || it.ran || len(it.progs) == 0 {
+		if it.br == nil {
 			return "bad-op"
 		}
-		return it.runSched(t[1:])
+		r := it.runSched(t[1:])
+		it.progs = nil
+		return r
 	case "results":
 		if !it.ran {
 			return "bad-op"
